@@ -262,7 +262,7 @@ def gen_cases(rec, rng, tier):
                 yield {'kind': 'nfa', 'cls': 'eps_chain', 'ref': fag.eps_chain(k, back_edge=back, accept_end=(k % 3 != 0)), 'n': 3, 'eps': rng.choice(['', 'ε']),
                        'container': rng.choice(conts), 'sets': [['c00'], ['c%02d' % (k // 2)]]}
     if rec.shard % 4 == 1:
-        for k in ((1100, 2500) if thorough else (1100,)):
+        for k in (1100,):
             yield {'kind': 'nfa', 'cls': 'eps_chain_beyond_recursion_limit', 'ref': fag.eps_chain(k, accept_end=True), 'n': 1, 'eps': '', 'container': 'defaultdict_set',
                    'sets': [['c00'], ['c%02d' % (k // 2)]]}
     for R in fag.thompson_nfas(rng, 40 if thorough else 10):
